@@ -35,11 +35,12 @@ const (
 	KZeros
 	KRamp
 	KMixed
+	KLimits // data built to reach the extreme tokens of the run / match coders (see expandInto)
 	NKinds
 )
 
 var KindNames = []string{"random", "text", "xml", "utf8", "dna", "exe-x86", "exe-arm", "wav", "bmp", "runs",
-	"skewed", "smallalpha", "repeat", "numeric", "base64", "same", "magic", "zeros", "ramp", "mixed"}
+	"skewed", "smallalpha", "repeat", "numeric", "base64", "same", "magic", "zeros", "ramp", "mixed", "limits"}
 
 // Recipe describes a byte string; Expand builds it.
 type Recipe struct {
@@ -114,7 +115,7 @@ func (rc Recipe) Expand() []byte {
 }
 
 // NEdges is the number of edge decorations.
-const NEdges = 12
+const NEdges = 15
 
 // applyEdge rewrites a few bytes at the block edges: blocks of a stream are cut at
 // arbitrary positions, so a block may start or end in the middle of a CR LF pair,
@@ -155,6 +156,21 @@ func applyEdge(b []byte, edge int) {
 		}
 	case 11: // escape-like bytes at both ends
 		b[0], b[n-1] = 0xFF, 0xFF
+	case 12: // malformed multi-byte UTF-8 sequences in the middle: lead byte, one good continuation byte, then ASCII
+		copy(b[n/2:], []byte{0xE2, 0x82, ' '})
+		if n > 64 {
+			copy(b[n/3:], []byte{0xF0, 0x9F, 0x98, ' '})
+		}
+	case 13: // one very long run in the middle (longer than a 16-bit run length when the block allows it)
+		v := b[n/8]
+		for i := n / 8; i < n-n/16 && i < n/8+73480+int(v)*64; i++ {
+			b[i] = v
+		}
+	case 14: // a run of 65538..65793 bytes (just above 0xFFFF plus the run threshold) when the block allows it
+		v := b[n/16]
+		for i := n / 16; i < n-1 && i < n/16+65538+int(v); i++ {
+			b[i] = v
+		}
 	}
 }
 
@@ -229,6 +245,38 @@ func expandInto(b []byte, kind int, seed uint64, p1, p2 int) {
 			off = 1 // start in the middle of a code point now and then
 		}
 		copy(b, sb.Bytes()[off:])
+	case KLimits:
+		expandInto(b, KText, seed, 1, 0)
+		switch p1 % 6 {
+		case 0, 1, 2: // long runs: 65538.., >= 73474, zero run beyond 2^16
+			ln := []int{65538 + p2*31, 73474 + p2*1000, 65536 + p2*257}[p1%6]
+			v := byte('A' + p2%26)
+			if p1%6 == 2 {
+				v = 0
+			}
+			at := n / 10
+			for i := at; i < at+ln && i < n-n/20; i++ {
+				b[i] = v
+			}
+		case 3: // one short period repeated to the end: matches of maximal length
+			per := 100 + p2
+			for i := per; i < n; i++ {
+				b[i] = b[i-per]
+			}
+		case 4: // far matches: the first 5000 bytes come back after more than 64 KiB
+			r.fill(b)
+			for at := 70000 + p2*100; at+5000 <= n; at += 70000 + p2*100 {
+				copy(b[at:at+5000], b[:5000])
+			}
+		case 5: // every byte value, strongly skewed
+			for i := range b {
+				if r.intn(8) == 0 {
+					b[i] = byte(r.intn(256))
+				} else {
+					b[i] = byte(r.intn(4))
+				}
+			}
+		}
 	case KDNA:
 		al := "ACGT"
 		for i := range b {
